@@ -112,7 +112,7 @@ func (s *SugaredLogger) WithOptions(opts ...Option) *SugaredLogger {
 // and execution continues. Passing an orphaned key triggers similar behavior:
 // panics in development and errors in production.
 func (s *SugaredLogger) With(args ...interface{}) *SugaredLogger {
-	return &SugaredLogger{base: s.base.With(s.sweetenFields(args)...)}
+	return &SugaredLogger{base: s.base.With(s.sweetenFields(args, 0)...)}
 }
 
 // WithLazy adds a variadic number of fields to the logging context lazily.
@@ -127,7 +127,7 @@ func (s *SugaredLogger) With(args ...interface{}) *SugaredLogger {
 // passing a non-string key panics, while in production it logs an error and skips the pair.
 // Passing an orphaned key has the same behavior.
 func (s *SugaredLogger) WithLazy(args ...interface{}) *SugaredLogger {
-	return &SugaredLogger{base: s.base.WithLazy(s.sweetenFields(args)...)}
+	return &SugaredLogger{base: s.base.WithLazy(s.sweetenFields(args, 0)...)}
 }
 
 // Level reports the minimum enabled level for this logger.
@@ -352,7 +352,7 @@ func (s *SugaredLogger) log(lvl zapcore.Level, template string, fmtArgs []interf
 
 	msg := getMessage(template, fmtArgs)
 	if ce := s.base.Check(lvl, msg); ce != nil {
-		ce.Write(s.sweetenFields(context)...)
+		ce.Write(s.sweetenFields(context, 1)...)
 	}
 }
 
@@ -364,7 +364,7 @@ func (s *SugaredLogger) logln(lvl zapcore.Level, fmtArgs []interface{}, context 
 
 	msg := getMessageln(fmtArgs)
 	if ce := s.base.Check(lvl, msg); ce != nil {
-		ce.Write(s.sweetenFields(context)...)
+		ce.Write(s.sweetenFields(context, 1)...)
 	}
 }
 
@@ -392,7 +392,12 @@ func getMessageln(fmtArgs []interface{}) string {
 	return msg[:len(msg)-1]
 }
 
-func (s *SugaredLogger) sweetenFields(args []interface{}) []Field {
+// sweetenFields converts loosely-typed arguments to Fields. Problems with the
+// arguments are logged at ErrorLevel; skip is the number of SugaredLogger
+// frames between sweetenFields and the exported method the user called (0 for
+// With and WithLazy, 1 for methods that go through log or logln), so that
+// these entries are annotated with the user's call site like any other entry.
+func (s *SugaredLogger) sweetenFields(args []interface{}, skip int) []Field {
 	if len(args) == 0 {
 		return nil
 	}
@@ -419,7 +424,7 @@ func (s *SugaredLogger) sweetenFields(args []interface{}) []Field {
 				seenError = true
 				fields = append(fields, Error(err))
 			} else {
-				s.base.Error(_multipleErrMsg, Error(err))
+				s.base.WithOptions(AddCallerSkip(skip)).Error(_multipleErrMsg, Error(err))
 			}
 			i++
 			continue
@@ -427,7 +432,7 @@ func (s *SugaredLogger) sweetenFields(args []interface{}) []Field {
 
 		// Make sure this element isn't a dangling key.
 		if i == len(args)-1 {
-			s.base.Error(_oddNumberErrMsg, Any("ignored", args[i]))
+			s.base.WithOptions(AddCallerSkip(skip)).Error(_oddNumberErrMsg, Any("ignored", args[i]))
 			break
 		}
 
@@ -448,7 +453,7 @@ func (s *SugaredLogger) sweetenFields(args []interface{}) []Field {
 
 	// If we encountered any invalid key-value pairs, log an error.
 	if len(invalid) > 0 {
-		s.base.Error(_nonStringKeyErrMsg, Array("invalid", invalid))
+		s.base.WithOptions(AddCallerSkip(skip)).Error(_nonStringKeyErrMsg, Array("invalid", invalid))
 	}
 	return fields
 }
